@@ -1,10 +1,11 @@
 SPECIFICATION Spec
 CONSTANTS
   Scale = 2
-  TMax = 7
+  TMax = 8
 INVARIANT LawSourceUnique
 INVARIANT LawSourceTotal
 INVARIANT LawHorizon
+INVARIANT LawGap
 INVARIANT LawNoneOutside
 INVARIANT LawStateTime
 INVARIANT LawStatic
